@@ -16,7 +16,7 @@
      statement is kept in the comment above them. *)
 From Coq Require Import List ZArith Bool Arith Lia.
 From SC Require Import Base.Res Base.PyList Inst.Heap Inst.ClassTable Inst.Model Inst.Canon
-  Inst.Abs Inst.SpecHelpers Inst.RefineProofs Inst.CopyProofs Inst.CopyStore Inst.RefineMore Inst.RefineMore2 Inst.RefineMore3 Inst.RefineMore4.
+  Inst.Abs Inst.SpecHelpers Inst.RefineProofs Inst.CopyProofs Inst.CopyStore Inst.RefineMore Inst.RefineMore2 Inst.RefineMore3 Inst.RefineMore4 Inst.RefineMore5.
 Import ListNotations.
 Open Scope nat_scope.
 
@@ -750,6 +750,81 @@ Proof.
   exact (delattr_op_refines ct h0 l a c d k sp s Hl Hc Ha Hd Hok Hfz Hni Hfa Hty Hnc Hp roots x Hx Hlit Hdv).
 Qed.
 
+(* ---------------- copy-run vs in-place-run (Inst/RefineMore5.v) ---------------- *)
+(* "With _inplace=True the identical resulting state appears on the receiver itself":
+   `same_outcome l rc ri` says of the copy-on-write run rc and the in-place run ri of one
+   call on one receiver l in one state: both succeed, rc returns a reference l', ri returns
+   l itself and absv(l' after rc) = absv(l after ri); or both fail with the same error class.
+   Proved for a flat receiver of an unfrozen class without invalidated_by and without
+   __post_copy__ hook, for the six call forms characterised above (both runs refine the same
+   specification, which does not look at _inplace). *)
+Theorem C05_copy_vs_inplace_with_partial : forall ct l c d k s a sp v,
+  nth_error (heap s) l = Some (OInst c d) -> lookup_cls ct c = Some k ->
+  NoDup (map fst d) -> flat_fields (heap s) d ->
+  c_dnc k = false -> c_frozen k = false -> no_inval k -> fail_at s = None -> c_post_copy k = None ->
+  assoc A_INITIALIZING d = None ->
+  lookup_attr k a = Some sp -> ty_depth (a_ty sp) < FUEL -> ty_is_collection (a_ty sp) = false ->
+  match a_prepare sp with Some f => scalar_fn f = true | None => True end ->
+  a <> A_INITIALIZING -> vscalar v = true ->
+  same_outcome l (run_helper ct l (HWith a) (mkh [v] false true VMissing false None None [] None) s)
+                 (run_helper ct l (HWith a) (mkh [v] true true VMissing false None None [] None) s).
+Proof.
+  intros ct l c d k s a sp v Hl Hc Hd Hflat Hdnc Hfz Hni Hfa Hpc Hinit.
+  exact (with_copy_vs_inplace ct [] l c d k s Hl Hc Hd Hflat Hdnc Hfz Hni Hfa Hpc Hinit a sp v).
+Qed.
+
+Theorem C05_copy_vs_inplace_transform_partial : forall ct l c d k s a sp f,
+  nth_error (heap s) l = Some (OInst c d) -> lookup_cls ct c = Some k ->
+  NoDup (map fst d) -> flat_fields (heap s) d ->
+  c_dnc k = false -> c_frozen k = false -> no_inval k -> fail_at s = None -> c_post_copy k = None ->
+  assoc A_INITIALIZING d = None ->
+  lookup_attr k a = Some sp -> ty_depth (a_ty sp) < FUEL -> ty_is_collection (a_ty sp) = false ->
+  match a_prepare sp with Some g => scalar_fn g = true | None => True end ->
+  a <> A_INITIALIZING -> scalar_fn f = true -> vscalar (cur_val a d k) = true ->
+  same_outcome l (run_helper ct l (HTransform a) (mkh [] false true VMissing false None None [] (Some f)) s)
+                 (run_helper ct l (HTransform a) (mkh [] true true VMissing false None None [] (Some f)) s).
+Proof.
+  intros ct l c d k s a sp f Hl Hc Hd Hflat Hdnc Hfz Hni Hfa Hpc Hinit.
+  exact (transform_copy_vs_inplace ct [] l c d k s Hl Hc Hd Hflat Hdnc Hfz Hni Hfa Hpc Hinit a sp f).
+Qed.
+
+Theorem C05_copy_vs_inplace_reset_partial : forall ct l c d k s a sp,
+  nth_error (heap s) l = Some (OInst c d) -> lookup_cls ct c = Some k ->
+  NoDup (map fst d) -> flat_fields (heap s) d ->
+  c_dnc k = false -> c_frozen k = false -> no_inval k -> fail_at s = None -> c_post_copy k = None ->
+  lookup_attr k a = Some sp -> ty_depth (a_ty sp) < FUEL -> ty_is_collection (a_ty sp) = false ->
+  match a_prepare sp with Some g => scalar_fn g = true | None => True end ->
+  literal_default a k sp -> vscalar (class_default k a) = true \/ class_default k a = VMissing ->
+  same_outcome l (run_helper ct l (HReset a) (mkh [] false true VMissing false None None [] None) s)
+                 (run_helper ct l (HReset a) (mkh [] true true VMissing false None None [] None) s).
+Proof.
+  intros ct l c d k s a sp Hl Hc Hd Hflat Hdnc Hfz Hni Hfa Hpc.
+  exact (reset_copy_vs_inplace ct [] l c d k s Hl Hc Hd Hflat Hdnc Hfz Hni Hfa Hpc a sp).
+Qed.
+
+Theorem C05_copy_vs_inplace_toplevel_partial : forall ct l c d k s,
+  nth_error (heap s) l = Some (OInst c d) -> lookup_cls ct c = Some k ->
+  NoDup (map fst d) -> flat_fields (heap s) d ->
+  c_dnc k = false -> c_frozen k = false -> no_inval k -> fail_at s = None -> c_post_copy k = None ->
+  (* update(a=v, ...) *)
+  (forall p0 ps, forallb (kw_ok k) (p0 :: ps) = true ->
+     same_outcome l (run_helper ct l HUpdateTop (mkh [] false true VMissing false None (Some (p0 :: ps)) [] None) s)
+                    (run_helper ct l HUpdateTop (mkh [] true true VMissing false None (Some (p0 :: ps)) [] None) s)) /\
+  (* transform(a=f, ...) *)
+  (forall p0 ps, forallb (kwfn_ok k d) (p0 :: ps) = true ->
+     same_outcome l (run_helper ct l HTransformTop (mkh [] false true VMissing false None None (p0 :: ps) None) s)
+                    (run_helper ct l HTransformTop (mkh [] true true VMissing false None None (p0 :: ps) None) s)) /\
+  (* reset() *)
+  (NoDup (map a_name (c_attrs k)) -> forallb (dep_ok k) (c_attrs k) = true ->
+     same_outcome l (run_helper ct l HResetTop (mkh [] false true VMissing false None None [] None) s)
+                    (run_helper ct l HResetTop (mkh [] true true VMissing false None None [] None) s)).
+Proof.
+  intros ct l c d k s Hl Hc Hd Hflat Hdnc Hfz Hni Hfa Hpc. split; [|split].
+  - exact (update_top_copy_vs_inplace ct [] l c d k s Hl Hc Hd Hflat Hdnc Hfz Hni Hfa Hpc).
+  - exact (transform_top_copy_vs_inplace ct [] l c d k s Hl Hc Hd Hflat Hdnc Hfz Hni Hfa Hpc).
+  - exact (reset_top_copy_vs_inplace ct [] l c d k s Hl Hc Hd Hflat Hdnc Hfz Hni Hfa Hpc).
+Qed.
+
 Print Assumptions C05_noop_if_false.
 Print Assumptions C05_noop_with_unchanged.
 Print Assumptions C05_noop_update_unchanged.
@@ -789,3 +864,7 @@ Print Assumptions C05_transform_top_refines_partial.
 Print Assumptions C05_transform_top_copy_refines_partial.
 Print Assumptions C05_example_transform_top.
 Print Assumptions C05_delattr_refines_partial.
+Print Assumptions C05_copy_vs_inplace_with_partial.
+Print Assumptions C05_copy_vs_inplace_transform_partial.
+Print Assumptions C05_copy_vs_inplace_reset_partial.
+Print Assumptions C05_copy_vs_inplace_toplevel_partial.
